@@ -571,27 +571,51 @@ before tokenising: no command, no reply. -/
 theorem ignored_silent (db : Db) (ig : IgnoreDb) (di : Bool) (now : Int) (h : Str)
     (hi : checkIgnored db ig di now h = .ok true) :
     ownerDoPrivmsg db ig di now h = .silent := by
-  simp [ownerDoPrivmsg, hi]
+  unfold ownerDoPrivmsg
+  split
+  · rfl
+  · simp [hi]
+
+/-- a sender whose prefix is not `nick!user@host` (a server, a service, a gateway relaying with a bare
+nick) is never dispatched: such a prefix is nobody's identity, in particular not an account name -/
+theorem bare_prefix_silent (db : Db) (ig : IgnoreDb) (di : Bool) (now : Int) (h : Str)
+    (hh : isUserHostmask h = false) : ownerDoPrivmsg db ig di now h = .silent := by
+  simp [ownerDoPrivmsg, hh]
+
+/-- … and even if a command reached the gate with such a prefix (a MessageParser trigger, a stored
+message), no account's capabilities apply: commands of the `Owner` plugin are refused -/
+theorem bare_prefix_never_owner (db : Db) (now : Int) (m : Msg) (P : Str) (cmd : List Str)
+    (hh : isUserHostmask m.pfx = false) (hP : canonicalName P = ownerS) (hdef : antiOwnerS ∈ db.defaults) :
+    gate db now m P cmd ≠ .allow := by
+  apply gate_antiowner db now m P cmd hP hdef
+  intro u hu
+  have : db.recognise now m.pfx = none := by unfold Db.recognise; simp [hh]
+  rw [this] at hu
+  cases hu
 
 /-- nothing is dispatched unless the caller is positively known not to be ignored -/
 theorem dispatch_requires_not_ignored (db : Db) (ig : IgnoreDb) (di : Bool) (now : Int) (h : Str)
     (hd : ownerDoPrivmsg db ig di now h = .dispatch) :
-    checkIgnored db ig di now h = .ok false := by
+    checkIgnored db ig di now h = .ok false ∧ isUserHostmask h = true := by
   unfold ownerDoPrivmsg at hd
-  cases hc : checkIgnored db ig di now h with
-  | error e => simp [hc] at hd
-  | ok b =>
-    cases b with
-    | true => simp [hc] at hd
-    | false => rfl
+  by_cases hh : isUserHostmask h = true
+  · simp only [hh, Bool.not_true, Bool.false_eq_true, if_false] at hd
+    cases hc : checkIgnored db ig di now h with
+    | error e => simp [hc] at hd
+    | ok b =>
+      cases b with
+      | true => simp [hc] at hd
+      | false => exact ⟨rfl, hh⟩
+  · simp [hh] at hd
 
 /-- a registered user carrying the ignore flag is ignored (even an owner: the flag makes
 `_checkCapability('trusted')` answer false) -/
 theorem ignore_flag_ignored (db : Db) (ig : IgnoreDb) (di : Bool) (now : Int) (h : Str) (u : User)
+    (hh : isUserHostmask h = true)
     (hl : db.lookup now h = .found u) (hflag : u.ignore = true) :
     checkIgnored db ig di now h = .ok true := by
   unfold checkIgnored ignoredGlobal
-  rw [hl]
+  rw [hh, if_pos rfl, hl]
   simp only
   have : u.checkCapability trustedS = .ok false := by
     unfold User.checkCapability
@@ -604,8 +628,12 @@ theorem ignore_flag_ignored (db : Db) (ig : IgnoreDb) (di : Bool) (now : Int) (h
 theorem ignores_db_ignored (db : Db) (ig : IgnoreDb) (di : Bool) (now : Int) (h : Str)
     (hl : db.lookup now h = .missing) (hm : ig.check now h = true) :
     checkIgnored db ig di now h = .ok true := by
+  have hlk : (if isUserHostmask h = true then db.lookup now h else Lookup.missing) = Lookup.missing := by
+    split
+    · exact hl
+    · rfl
   unfold checkIgnored ignoredGlobal
-  rw [hl]
+  rw [hlk]
   cases di <;> simp [hm]
 
 /-- a caller ignored globally or by the channel the message was sent to never reaches the
@@ -640,7 +668,7 @@ theorem received_dispatch_requires (db : Db) (ig : IgnoreDb) (di : Bool) (now : 
     | true => simp [hc] at hd
     | false =>
       simp only [hc, Bool.not_false] at hd
-      exact ⟨rfl, dispatch_requires_not_ignored db ig di now h hd⟩
+      exact ⟨rfl, (dispatch_requires_not_ignored db ig di now h hd).1⟩
 
 /-- a live channel ban or channel ignore matching the caller silences them in that channel -/
 theorem channel_ban_ignored (db : Db) (ig : IgnoreDb) (di : Bool) (now : Int) (h ch : Str)
@@ -665,9 +693,10 @@ theorem channel_ban_ignored (db : Db) (ig : IgnoreDb) (di : Bool) (now : Int) (h
 /-- a trusted user (owners included) is never ignored, not even in a lobotomized channel -/
 theorem trusted_never_ignored (db : Db) (ig : IgnoreDb) (di : Bool) (now : Int) (h : Str) (u : User)
     (recipient : Option Str) (chan : Str → ChanIgn)
+    (hh : isUserHostmask h = true)
     (hl : db.lookup now h = .found u) (ht : u.checkCapability trustedS = .ok true) :
     checkIgnoredIn db ig di now h recipient chan = .ok false := by
-  simp [checkIgnoredIn, ignoredGlobal, hl, ht]
+  simp [checkIgnoredIn, ignoredGlobal, hh, hl, ht]
 
 /-! ## the flood guard -/
 
@@ -679,6 +708,11 @@ theorem flood_dispatch_requires (db : Db) (ig : IgnoreDb) (di : Bool) (now : Int
     checkIgnored db ig di now h = .ok false ∧ ig' = ig ∧
       (on = false ∨ queued ≤ maximum ∨ db.checkCapability now h trustedS = .ok true) := by
   unfold ownerDoPrivmsgFlood at hd
+  have hh : isUserHostmask h = true := by
+    cases hq : isUserHostmask h with
+    | true => rfl
+    | false => simp [hq] at hd
+  simp only [hh, Bool.not_true, Bool.false_eq_true, if_false] at hd
   cases hc : checkIgnored db ig di now h with
   | error e => simp [hc] at hd
   | ok b =>
